@@ -105,6 +105,15 @@ def run (j : Json) : Except String Json := do
   let again := match full with | .ok r => convertDict r ms | .error e => .error e
   let msOpt := if hasAttr then some ms else none
   let deserIn := deserVersioned id msOpt doc
+  -- undeclared keys kept by the Versioned deserialization (Sem `deserExtras`)
+  let fields ← match Typedpy.Wire.optField j "fields" with
+    | none => pure []
+    | some a => (← a.getArr?).toList.mapM (·.getStr?)
+  let keep : Option Bool := match j.getObjVal? "keep" with | .ok (.bool b) => some b | _ => none
+  let addl := match j.getObjVal? "addl" with | .ok (.bool b) => b | _ => true
+  let extras : R J := match deserExtras fields keep addl msOpt doc with
+    | .ok kvs => .ok (.obj kvs)
+    | .error e => .error e
   let kw ← match Typedpy.Wire.optField j "kw" with
     | none => pure []
     | some x => do match (← docOfJson x) with | .obj kvs => pure kvs | _ => throw "kw"
@@ -128,7 +137,7 @@ def run (j : Json) : Except String Json := do
     ("wf", .bool (wfHistory ms)), ("inDomain", .bool (inDomain ms doc)),
     ("docVersion", optInt (docVersion doc)), ("effVersion", optInt (effectiveVersion doc)),
     ("hasVersionKey", .bool (hasVersionKey doc)),
-    ("deserIn", resToJson deserIn), ("initVersion", optInt initV), ("upgradeAgrees", optBool upg)]
+    ("deserIn", resToJson deserIn), ("deserExtras", resToJson extras), ("initVersion", optInt initV), ("upgradeAgrees", optBool upg)]
   -- laws evaluated on what the real code returned (documents arrive with sorted keys)
   let laws ← match Typedpy.Wire.optField j "impl" with
     | none => pure []
